@@ -290,7 +290,7 @@ func (app *App) addPrefixToRoute(prefix string, route *Route) *Route {
 	// the prefix may bring parameters of its own
 	route.Params = parseRoute(prefixedPath, app.customConstraints...).params
 	route.root = route.path == "/"
-	route.star = route.path == "/*"
+	route.star = prettyPath == "/*"
 
 	return route
 }
@@ -359,7 +359,7 @@ func (app *App) register(methods []string, pathRaw string, group *Group, handler
 		}
 
 		isUse := method == methodUse
-		isStar := pathClean == "/*"
+		isStar := pathPretty == "/*" // not the escaped, literal asterisk `/\*`
 		isRoot := pathClean == "/"
 
 		route := Route{
